@@ -104,3 +104,10 @@ pub fn file_of_spec(spec: &str) -> Vec<u8> {
         panic!("bad file spec {spec}")
     }
 }
+
+/// Sockets of finished cases are parked here until the process ends, so that the kernel never hands one of
+/// their ports to a later case while a straggling worker of the earlier case may still send to it.
+pub fn retire_socket(s: std::net::UdpSocket) {
+    static GRAVEYARD: std::sync::Mutex<Vec<std::net::UdpSocket>> = std::sync::Mutex::new(Vec::new());
+    GRAVEYARD.lock().unwrap().push(s);
+}
